@@ -208,6 +208,41 @@ func parse(ls []string) [][]step {
 	return out
 }
 
+// lookalike: a personal address that is a LIKE pattern of a role address (`_`, `%`) is somebody else: its mail goes to its own
+// store and the holder of the role never sees it
+func lookalike(rep *hx.Report, w *world.World, pi int, holder string, roleAddr string) {
+	at := strings.Index(roleAddr, "@")
+	for _, personal := range []string{roleAddr[:at-1] + "_" + roleAddr[at:], roleAddr[:2] + "%" + roleAddr[at:]} {
+		tok := fmt.Sprintf("PRIVATE-%d-%s", pi, hx.H(personal)[:8])
+		rep.Case("lookalike|"+personal, true)
+		_, data := w.Deliver("s@example.org", []string{personal}, msg(tok))
+		if len(data) != 1 || !strings.HasPrefix(data[0], "250") {
+			continue // refused: nothing was filed anywhere
+		}
+		sees := func(user, box string) bool {
+			c := w.Login(user)
+			defer c.Close()
+			if !c.Cmd("EXAMINE " + box).OK() {
+				return false
+			}
+			for _, l := range c.Cmd("FETCH 1:* (BODY.PEEK[HEADER.FIELDS (SUBJECT)])").Untagged {
+				if strings.Contains(l, tok) {
+					return true
+				}
+			}
+			return false
+		}
+		replay := []string{"lookalike " + hx.H(personal)}
+		if sees(holder, "Roles/"+roleAddr+"/INBOX") {
+			rep.Violate("impl-violation", "only its own stores", fmt.Sprintf("mail for the personal address %s was filed in the role mailbox %s: its holder %s reads %q", personal, roleAddr, holder, tok), replay)
+		} else if !sees(personal, "INBOX") {
+			rep.Violate("impl-violation", "only its own stores", fmt.Sprintf("mail for %s was accepted and is not in that user's INBOX", personal), replay)
+		} else {
+			rep.Hit("lookalike:own-store")
+		}
+	}
+}
+
 func runProg(rep *hx.Report, w *world.World, prog []step, pi int) {
 	// fresh users and role per program: a<pi>, b<pi>, observer c<pi>, role sales<pi> — the command texts say "sales@example.com"
 	// and are rewritten to this program's role address
@@ -247,6 +282,9 @@ func runProg(rep *hx.Report, w *world.World, prog []step, pi int) {
 			c.Close()
 		}
 	}()
+	if pi < 6 {
+		lookalike(rep, w, pi, ua, roleAddr)
+	}
 	// seed content: every store has INBOX message(s) with the same UIDs, and a mailbox "common"
 	deliver := func(addr, store string) {
 		tokN++
